@@ -102,12 +102,12 @@ def gen_wig_values(rng, length, style, maxn, value_mode):
     return vals, tags
 
 
-def gen_wig_input(rng, nchrom=None, value_mode="int", maxn=14, sorted_names=True):
+def gen_wig_input(rng, nchrom=None, value_mode="int", maxn=14, sorted_names=True, lengths=(50, 100, 257, 1000, 5000, 70000)):
     nchrom = nchrom or rng.choice([1, 1, 2, 3, 4, 6])
     names = pick_chroms(rng, nchrom, sorted_names)
     sizes, data, tags = {}, {}, set()
     for nm in names:
-        length = rng.choice([50, 100, 257, 1000, 5000, 70000])
+        length = rng.choice(list(lengths))
         style = rng.choice(["dense", "sparse", "mixed", "mixed", "touch_ends", "long"])
         vals, t = gen_wig_values(rng, length, style, rng.choice([1, 3, maxn, maxn]), value_mode)
         if not vals:
@@ -210,12 +210,13 @@ def gen_bed_entries(rng, length, style, maxn, with_rest=True, allow_zero_len=Tru
     return ents
 
 
-def gen_bed_input(rng, nchrom=None, maxn=12, with_rest=True, sorted_names=True, styles=None, allow_zero_len=True):
+def gen_bed_input(rng, nchrom=None, maxn=12, with_rest=True, sorted_names=True, styles=None, allow_zero_len=True,
+                  lengths=(100, 300, 1000, 5000, 80000)):
     nchrom = nchrom or rng.choice([1, 1, 2, 3, 5])
     names = pick_chroms(rng, nchrom, sorted_names)
     sizes, data, tags = {}, {}, set()
     for nm in names:
-        length = rng.choice([100, 300, 1000, 5000, 80000])
+        length = rng.choice(list(lengths))
         style = rng.choice(styles or ["disjoint", "nested", "dup", "long_then_short", "mixed", "mixed"])
         ents = gen_bed_entries(rng, length, style, rng.choice([1, 3, maxn, maxn]), with_rest, allow_zero_len)
         ents = [x for x in ents if not (x[0] == 0 and x[1] == 0)]      # (0,0) is the reader's padding marker (D5)
